@@ -223,28 +223,39 @@ def gen_remove_custom(tp):
 
 
 def gen_update_listeners(tp):
+    """three regions of the task: statements before the lock is taken (`listenerPre`), statements under the lock
+    before the listener loop (`listenerRead`), the argument evaluated at each listener call (`listenerArg`).
+    The locals of the function (all lists of triggers) become the fields of a generated record `Locals`."""
     f = find_def(tp, 'TracepointConfigService.update_listeners')
     body = strip_doc(f.body)
+    withs = [i for i, s in enumerate(body) if isinstance(s, ast.With)]
     locked = False
-    if len(body) == 1 and isinstance(body[0], ast.With):
-        w = body[0]
+    pre, inner_body = [], body
+    if withs:
+        if len(withs) != 1 or withs[0] != len(body) - 1:
+            raise Untranslatable('update_listeners: the `with` block is not the single last statement')
+        w = body[-1]
         if len(w.items) != 1 or ast.unparse(w.items[0].context_expr) != 'self._update_lock' \
                 or w.items[0].optional_vars is not None:
             raise Untranslatable('update_listeners: unexpected with-item ' + ast.unparse(w.items[0]))
         locked = True
-        body = list(w.body)
-    lets = []
-    loop = None
-    for s in body:
-        if isinstance(s, ast.Assign) and len(s.targets) == 1 and isinstance(s.targets[0], ast.Name):
-            if ast.unparse(s.value) == 'self._listeners.copy()':
-                continue
-            lets.append(s)
-        elif isinstance(s, ast.For) and loop is None:
-            loop = s
-        else:
-            raise Untranslatable('update_listeners: ' + ast.unparse(s)[:80])
-    if loop is None or body[-1] is not loop:
+        pre, inner_body = body[:-1], list(w.body)
+
+    def split_lets(stmts, allow_loop):
+        lets, loop = [], None
+        for s in stmts:
+            if isinstance(s, ast.Assign) and len(s.targets) == 1 and isinstance(s.targets[0], ast.Name):
+                if ast.unparse(s.value) == 'self._listeners.copy()':
+                    continue
+                lets.append(s)
+            elif allow_loop and isinstance(s, ast.For) and loop is None and s is stmts[-1]:
+                loop = s
+            else:
+                raise Untranslatable('update_listeners: ' + ast.unparse(s)[:80])
+        return lets, loop
+    pre_lets, _ = split_lets(pre, False)
+    in_lets, loop = split_lets(inner_body, True)
+    if loop is None:
         raise Untranslatable('update_listeners: the listener loop is not the last statement')
     if ast.unparse(loop.iter) not in ('listeners_copy', 'self._listeners', 'self._listeners.copy()'):
         raise Untranslatable('update_listeners: loop over ' + ast.unparse(loop.iter))
@@ -262,21 +273,29 @@ def gen_update_listeners(tp):
     call = inner[0].value
     if ast.unparse(call.func) != f'{lv}.config_change' or len(call.args) != 5 or call.keywords:
         raise Untranslatable('update_listeners: ' + ast.unparse(call)[:80])
-    tr = StateTranslator(FIELDS, subst=dict(READS), list_add=True)
-    # locals assigned before the loop: only `new_config` may be (re)bound, anything else is outside the subset
-    for s in lets:
-        if s.targets[0].id != 'new_config':
-            raise Untranslatable('update_listeners: local ' + s.targets[0].id)
-    read_lines = [f'let new_config := {tr.expr(s.value)}' for s in lets] + ['new_config']
-    return ('/-- `update_listeners`, before the listener loop: the value of the local `new_config` (the parameter is\n'
-            '    the argument captured when the task was submitted) -/\n'
-            'def listenerRead (st : Svc) (new_config : List Trig) : List Trig :=\n  '
-            + '\n  '.join(read_lines) + '\n\n'
+    names = ['new_config']
+    for s2 in pre_lets + in_lets:
+        if s2.targets[0].id not in names:
+            names.append(s2.targets[0].id)
+    tr = StateTranslator(FIELDS, subst=dict(READS), list_add=True, names={n: f'l.{n}' for n in names})
+
+    def region(lets):
+        return '\n  '.join([f'let l := {{ l with {x.targets[0].id} := {tr.expr(x.value)} }}' for x in lets] + ['l'])
+    fields = '\n'.join(f'  {n} : List Trig' for n in names)
+    init = ', '.join(f'{n} := ' + ('captured' if n == 'new_config' else '[]') for n in names)
+    return ('/-- locals of `update_listeners` -/\n'
+            f'structure Locals where\n{fields}\nderiving Repr, DecidableEq\n\n'
+            '/-- on entry: `new_config` is the argument captured when the task was submitted -/\n'
+            f'def Locals.init (captured : List Trig) : Locals := {{ {init} }}\n\n'
+            '/-- `update_listeners`, statements BEFORE the update lock is taken -/\n'
+            'def listenerPre (st : Svc) (l : Locals) : Locals :=\n  ' + region(pre_lets) + '\n\n'
+            '/-- `update_listeners`, statements under the lock before the listener loop -/\n'
+            'def listenerRead (st : Svc) (l : Locals) : Locals :=\n  ' + region(in_lets) + '\n\n'
             '/-- `update_listeners`, inside the loop: the 5th argument of `config_change`, evaluated when the\n'
-            '    listener is called (`new_config` is the local read before the loop) -/\n'
-            'def listenerArg (st : Svc) (new_config : List Trig) : List Trig :=\n  '
+            '    listener is called -/\n'
+            'def listenerArg (st : Svc) (l : Locals) : List Trig :=\n  '
             + tr.expr(call.args[4]) + '\n\n'
-            '/-- both happen under `self._update_lock` -/\n'
+            '/-- `listenerRead`, the listener calls and the install happen under `self._update_lock` -/\n'
             f'def applyLocked : Bool := {lean_bool(locked)}\n\n'
             '/-- a listener that raises `Exception` does not stop the others -/\n'
             f'def listenerFailureContained : Bool := {lean_bool(contained)}\n')
